@@ -43,6 +43,12 @@ CHECKS = {
             '(rows, CFA rule, register rules, restore to CIE rules, remember/restore state, distinct code/data alignment factors) against the reference interpreter.',
             'Trusted: encoder in vf/checks/c06.py, vf/ref/cfi.py (my transcription of 6.4.2), Hypothesis. 64-bit .eh_frame entries and v4 CIEs with a non-default address size are outside the domain.',
             'DESIGN.md 4/C06'),
+    'C07': ('Hypothesis-generated loc/range list sections referenced from generated DIEs + entry-kind x cell sweep, own list encoders; round-trip against the model and an attribute-class table written from DWARF v2-v5',
+            'Exploration: v2-4 .debug_loc/.debug_ranges lists (base-selection entries, shared tails, location views) and v5 .debug_loclists/.debug_rnglists blocks '
+            '(every DW_LLE/DW_RLE kind, indexed kinds through .debug_addr, offset tables, DWARF32/64, gaps) fetched by attribute, offset and index; section enumeration, '
+            'iter_CUs headers, iter_CU_range_lists_ex, translate_v5_entry; expression-vs-list-vs-neither classification over (attribute, form, version) cells.',
+            'Trusted: list encoders and the classification table in vf/checks/c07.py, vf/enc/dwarf.py for the DIEs. Cells DWARF v2/v3 leave ambiguous (constant forms on location attributes) are not asserted.',
+            'DESIGN.md 4/C07'),
     'C12': ('Hypothesis-generated operation sequences + every-operation x every-cell sweep from an independently transcribed operation table; round-trip and re-encoding; exhaustive name/opcode bijection',
             'Exploration: parse_expr output (opcode, name, operand values with signedness/width, offsets, nested entry_value blocks to depth 4) equals the generated '
             'sequence for all 174 listed operations in 32 configuration cells with boundary operands and non-minimal LEB128; re-encoding reproduces the bytes; the '
